@@ -547,6 +547,12 @@ func checkAccDeps(got func(field string) dependency.Dependency, want map[string]
 		if err := compareDepToAST(&g, ast); err != nil {
 			return errf("%s accessor for %s: %v", what, f, err)
 		}
+		// the value handed out is the caller's: changing it must not change what the next call returns
+		scribbleDep(&g)
+		g2 := got(f)
+		if err := compareDepToAST(&g2, ast); err != nil {
+			return errf("%s accessor for %s, called again after the caller modified the first result: %v", what, f, err)
+		}
 	}
 	return nil
 }
@@ -860,4 +866,66 @@ func TestC10_GetDSC(t *testing.T) {
 		}
 		return c
 	}, 800, 8000)
+}
+
+// ------------------------------------------------------------------ I/O buffer edges for multi-paragraph documents
+
+func padTyped(c TypedDocCase, pad int) TypedDocCase {
+	out := c
+	val := strings.Repeat("x", pad)
+	out.Text = "X-Pad: " + val + "\n" + c.Text
+	out.Exps = append([]Exp{}, c.Exps...)
+	e0 := c.Exps[0]
+	unk := map[string]string{"X-Pad": val}
+	for k, v := range e0.Unknown {
+		unk[k] = v
+	}
+	e0.Unknown = unk
+	out.Exps[0] = e0
+	out.BufSize = 4096
+	out.Feats = append([]string{"buffer-edge"}, c.Feats...)
+	return out
+}
+
+var specC10Edge = Register(&Spec[TypedDocCase]{
+	Prop: "C10", Name: "bufferedge",
+	Rule: "bounded-exhaustive over buffer alignment: a few generated Packages, Sources and debian/control documents (several paragraphs) get an 'X-Pad' field of n 'x' as first line, n chosen so that each line boundary of the document in turn lands at 4096-1, 4096, 4096+1, 8192-1, 8192, 8192+1 bytes from the start. Oracle as C10/typed (plus X-Pad itself in the first paragraph's raw values). Non-trivial: every case; distinct by text.",
+	Check: checkTypedDoc,
+})
+
+func TestC10_BufferEdgeExh(t *testing.T) {
+	n := pickN(3, 18)
+	var bases []TypedDocCase
+	sink := &Spec[TypedDocCase]{Check: func(c TypedDocCase, r *Recorder) error { bases = append(bases, c); return nil }}
+	rapidCollect(t, sink, func(t *rapid.T) TypedDocCase {
+		switch rapid.IntRange(0, 2).Draw(t, "kind") {
+		case 0:
+			return genPackagesDoc(t)
+		case 1:
+			return genSourcesDoc(t)
+		default:
+			return genControlDoc(t)
+		}
+	}, n)
+	specC10Edge.Enumerate(t, true, func(_ *Recorder, yield func(TypedDocCase) bool) {
+		for _, b := range bases {
+			zero := padTyped(b, 0).Text
+			for pos := 0; pos < len(zero); pos++ {
+				if zero[pos] != '\n' {
+					continue
+				}
+				for _, mark := range []int{4096, 8192} {
+					for d := -1; d <= 1; d++ {
+						pad := mark + d - (pos + 1)
+						if pad < 1 {
+							continue
+						}
+						if !yield(padTyped(b, pad)) {
+							return
+						}
+					}
+				}
+			}
+		}
+	})
 }
